@@ -90,6 +90,15 @@ CHECKS = {
             'name; for standard tracebacks ending in "Type: message" one element must be exactly the type and one exactly the message.',
             'tracebacks are produced by the running interpreter (3.12 caret lines included); paths under the page\'s own asset prefix are not requested',
             'DESIGN.md §4 C20'),
+    'C17': ('exploration',
+            'Hypothesis recursive value generator (spec trees) x renderers x requests; json.loads round trip against a harness-side normalisation, restated sniffing rules, html.parser for tables',
+            'Generated endpoint results of every listed kind are served through render_basic, render_json(_dev), streaming JSON '
+            'and JSONP inside a real Application: render_basic must answer 200, label serialized JSON / HTML documents / other '
+            'text as stated with the bytes unchanged, serialize containers to JSON that parses back to the normalised value or, '
+            'for tabular shapes when HTML is requested, to a table containing every cell; JSON renderers must emit JSON that '
+            'round-trips for JSON-native data and degrade unknown objects to repr in dev mode.',
+            'look-alike JSON text and late <html> markers may be labelled either way; non-tabular shapes are not sent down the HTML path (O10)',
+            'DESIGN.md §4 C17'),
 }
 
 PENDING_REASON = 'check not built yet in this session (planned, see DESIGN.md §4); not claimed until it runs quietly on the unchanged tree'
